@@ -2,6 +2,7 @@
    VM, what the real VM did (per-line outcome, final store), and the oracle
    tables for the library functions; the model is re-run on the same bytecode
    and [verify] judges the bytecode. *)
+From V Require Export Lang.Elab Proofs.ElabSound.
 From V Require Export Lang.Vm Lang.Verify Metrics.FloatBits.
 Local Open Scope Z_scope.
 
@@ -161,11 +162,85 @@ Definition verify_as (e : expect) (o : object) : bool :=
   | Some d => match e with MustVerify => false | _ => known_reject d end
   end end.
 
+(* ---- the checker tie (Lang/Elab.v): what the real compiler made of the source ---- *)
+Inductive xexp :=
+| XRejected
+| XObj (prog : list instr) (strs res : list bytes) (mets : list (mkind * mtype * nat)).
+
+(* which warnings the stream must / must not produce *)
+Inductive want := WantClean | WantWarn (w : warn) | WantAny.
+
+Definition operand_eqb (a b : operand) : bool :=
+  match a, b with
+  | ONil, ONil => true
+  | OInt x, OInt y | OI64 x, OI64 y | ODur x, ODur y => Z.eqb x y
+  | OF64 x, OF64 y => N.eqb x y
+  | OBool x, OBool y => Bool.eqb x y
+  | _, _ => false
+  end.
+
+(* model instruction vs real instruction.  The model always selects the typed
+   comparison; codegen.go falls back to the generic cmp for numeric operands
+   whose type object is a copy (results of builtins), which computes the same *)
+Definition instr_eqv (m r : instr) : bool :=
+  operand_eqb (i_arg m) (i_arg r) &&
+  (opcode_eqb (i_op m) (i_op r) ||
+   match i_op m, i_op r with Icmp, Cmp | Fcmp, Cmp => true | _, _ => false end).
+
+Definition mkind_eqb (a b : mkind) : bool :=
+  match a, b with
+  | KCounter, KCounter | KGauge, KGauge | KTimer, KTimer | KText, KText | KHistogram, KHistogram => true
+  | _, _ => false
+  end.
+Definition met_eqb (d : mdesc) (x : mkind * mtype * nat) : bool :=
+  let '(k, t, n) := x in mkind_eqb (Bytecode.md_kind d) k && mtype_eqb (md_type d) t && Nat.eqb (md_arity d) n.
+
+Fixpoint list_eqb2 {A B} (f : A -> B -> bool) (a : list A) (b : list B) : bool :=
+  match a, b with
+  | [], [] => true
+  | x :: a', y :: b' => f x y && list_eqb2 f a' b'
+  | _, _ => false
+  end.
+
+Definition warn_eqb (a b : warn) : bool :=
+  match a, b with
+  | WSettime, WSettime | WMixed, WMixed | WCond, WCond | WNeg, WNeg | WOther, WOther | WNotWt, WNotWt => true
+  | _, _ => false
+  end.
+
+Definition want_ok (x : want) (w : list warn) : bool :=
+  match x with
+  | WantClean => negb (existsb is_family w) && negb (existsb (warn_eqb WOther) w)
+  | WantWarn v => existsb (warn_eqb v) w
+  | WantAny => true
+  end.
+
+Definition elab_ok (x : want) (u : pre_prog) (r : xexp) : bool :=
+  match elab u with
+  | EUnsup => true                          (* outside the modelled part of the checker *)
+  | EReject => match r with XRejected => true | _ => false end
+  | EOk (p, w) =>
+      match r with
+      | XRejected => false
+      | XObj ins ss rs ms =>
+          let o := codegen p in
+          list_eqb2 instr_eqv (o_prog o) ins && list_eqb bytes_eqb (o_strs o) ss &&
+          list_eqb bytes_eqb (p_res p) rs && list_eqb2 met_eqb (o_metrics o) ms &&
+          (* an unaccepted tree is always announced by a family warning *)
+          (negb (existsb (warn_eqb WOther) w) || existsb is_family w) &&
+          want_ok x w
+      end
+  end.
+
+Definition elab_unsup (u : pre_prog) : bool := match elab u with EUnsup => true | _ => false end.
+
 Inductive case :=
 | CRun (id : N) (o : object) (tb : tables) (now : Z) (e : expect)
-       (init : proj) (lines : list logline) (outs : list obs) (final : option proj).
+       (init : proj) (lines : list logline) (outs : list obs) (final : option proj)
+| CElab (id : N) (x : want) (u : pre_prog) (r : xexp).
 
-Definition case_id (c : case) : N := match c with CRun i _ _ _ _ _ _ _ _ => i end.
+Definition case_id (c : case) : N :=
+  match c with CRun i _ _ _ _ _ _ _ _ => i | CElab i _ _ _ => i end.
 
 Definition case_ok (c : case) : bool :=
   match c with
@@ -176,7 +251,12 @@ Definition case_ok (c : case) : bool :=
        obs_all ocs outs &&
        match final with Some f => proj_eqb (project (vs_store s)) f | None => true end) &&
       verify_as e o
+  | CElab _ x u r => elab_ok x u r
   end.
+
+(* checker-tie cases the model declines to judge *)
+Definition unsupported (l : list case) : list N :=
+  flat_map (fun c => match c with CElab i _ u _ => if elab_unsup u then [i] else [] | _ => [] end) l.
 
 Definition mismatches (l : list case) : list N := failing case_ok case_id l.
 
@@ -187,4 +267,5 @@ Definition explain (c : case) :=
       let E := mk_env tb now in
       let (ocs, s) := run_lines E o lines (init_vm o) in
       (proj_eqb (project (init_store o)) init, ocs, project (vs_store s), verify_diag o)
+  | CElab _ _ _ _ => (true, [], [], None)
   end.
